@@ -75,282 +75,7 @@ theorem weekday_in_uniform (d : Dur) (a b : TS) (hd : d.Canon) (ha : a.nonDyn = 
   unfold Ep.weekdayIn; rw [r1]; simp only
   rw [weekday_of_duration r r2, r3]
 
-/-! ### next / previous -/
-
-/-- `next` jumps 1 to 7 whole days, to the requested weekday, keeping the time of day and the scale
-    (TAI epochs; no bound hit) -/
-theorem next_spec (d : Dur) (w : Int) (hd : d.Canon) (hw : 0 ≤ w ∧ w ≤ 6) (hhi : d.val + 7 * 86400000000000 ≤ DMAX) :
-    ∃ r k, (Ep.mk d .TAI).next w = some ⟨r, .TAI⟩ ∧ r.Canon ∧ 1 ≤ k ∧ k ≤ 7 ∧
-      r.val = d.val + k * 86400000000000 ∧ weekdayOfDur r = w := by
-  have hcur := weekday_tai d hd
-  unfold Ep.next; rw [hcur]; simp only
-  have hc : 0 ≤ (d.val / 86400000000000) % 7 ∧ (d.val / 86400000000000) % 7 ≤ 6 := by omega
-  have hdiff := diff_weekdays ((d.val / 86400000000000) % 7) w hc hw
-  have hz : Dur.ZERO.Canon := by unfold Dur.Canon Dur.ZERO; simp only [NPC_eq]; decide
-  have h7 := unitMulI64_spec Gen.NANOSECONDS_PER_DAY 7 (by unfold unitFactors; simp) (by decide)
-  have hr := canon_range d hd
-  unfold DMIN DMAX at *; simp only [NPCs_eq] at *
-  by_cases he : Dur.eqb (wdDiff ((d.val / 86400000000000) % 7) w) Dur.ZERO = true
-  · rw [if_pos he]
-    have hv := (eqb_spec _ _ hdiff.1 hz).mp he
-    have hzv : Dur.ZERO.val = 0 := by decide
-    rw [hzv, hdiff.2] at hv
-    have hk : (w - (d.val / 86400000000000) % 7) % 7 = 0 := by omega
-    have ha := add_spec d _ hd h7.1
-    refine ⟨_, 7, rfl, ha.1, by omega, by omega, ?_, ?_⟩
-    · rw [ha.2, h7.2, clampD_mid (x := 7 * Gen.NANOSECONDS_PER_DAY) (by decide) (by decide), clampD_mid] <;>
-        (show _ ≤ _; simp only [Gen.NANOSECONDS_PER_DAY]; omega)
-    · rw [weekday_of_duration _ ha.1, ha.2, h7.2, clampD_mid (x := 7 * Gen.NANOSECONDS_PER_DAY) (by decide) (by decide),
-          clampD_mid (by simp only [Gen.NANOSECONDS_PER_DAY]; omega) (by simp only [Gen.NANOSECONDS_PER_DAY]; omega)]
-      simp only [Gen.NANOSECONDS_PER_DAY]; omega
-  · rw [if_neg he]
-    have hv : ¬ ((wdDiff ((d.val / 86400000000000) % 7) w).val = 0) := by
-      intro h0; apply he; apply (eqb_spec _ _ hdiff.1 hz).mpr; left; rw [h0]; decide
-    rw [hdiff.2] at hv
-    have hk : 1 ≤ (w - (d.val / 86400000000000) % 7) % 7 ∧ (w - (d.val / 86400000000000) % 7) % 7 ≤ 6 := by omega
-    have ha := add_spec d _ hd hdiff.1
-    refine ⟨_, (w - (d.val / 86400000000000) % 7) % 7, rfl, ha.1, hk.1, by omega, ?_, ?_⟩
-    · rw [ha.2, hdiff.2, clampD_mid] <;> omega
-    · rw [weekday_of_duration _ ha.1, ha.2, hdiff.2, clampD_mid (by omega) (by omega)]; omega
-
-/-- `previous`: 1 to 7 whole days earlier, on the requested weekday -/
-theorem previous_spec (d : Dur) (w : Int) (hd : d.Canon) (hw : 0 ≤ w ∧ w ≤ 6) (hlo : DMIN ≤ d.val - 7 * 86400000000000) :
-    ∃ r k, (Ep.mk d .TAI).previous w = some ⟨r, .TAI⟩ ∧ r.Canon ∧ 1 ≤ k ∧ k ≤ 7 ∧
-      r.val = d.val - k * 86400000000000 ∧ weekdayOfDur r = w := by
-  have hcur := weekday_tai d hd
-  unfold Ep.previous; rw [hcur]; simp only
-  have hc : 0 ≤ (d.val / 86400000000000) % 7 ∧ (d.val / 86400000000000) % 7 ≤ 6 := by omega
-  have hdiff := diff_weekdays w ((d.val / 86400000000000) % 7) hw hc
-  have hz : Dur.ZERO.Canon := by unfold Dur.Canon Dur.ZERO; simp only [NPC_eq]; decide
-  have h7 := unitMulI64_spec Gen.NANOSECONDS_PER_DAY 7 (by unfold unitFactors; simp) (by decide)
-  have hr := canon_range d hd
-  unfold DMIN DMAX at *; simp only [NPCs_eq] at *
-  by_cases he : Dur.eqb (wdDiff w ((d.val / 86400000000000) % 7)) Dur.ZERO = true
-  · rw [if_pos he]
-    have hv := (eqb_spec _ _ hdiff.1 hz).mp he
-    have hzv : Dur.ZERO.val = 0 := by decide
-    rw [hzv, hdiff.2] at hv
-    have hk : ((d.val / 86400000000000) % 7 - w) % 7 = 0 := by omega
-    have ha := sub_spec d _ hd h7.1
-    refine ⟨_, 7, rfl, ha.1, by omega, by omega, ?_, ?_⟩
-    · rw [ha.2, h7.2, clampD_mid (x := 7 * Gen.NANOSECONDS_PER_DAY) (by decide) (by decide), clampD_mid] <;>
-        (show _ ≤ _; simp only [Gen.NANOSECONDS_PER_DAY]; omega)
-    · rw [weekday_of_duration _ ha.1, ha.2, h7.2, clampD_mid (x := 7 * Gen.NANOSECONDS_PER_DAY) (by decide) (by decide),
-          clampD_mid (by simp only [Gen.NANOSECONDS_PER_DAY]; omega) (by simp only [Gen.NANOSECONDS_PER_DAY]; omega)]
-      simp only [Gen.NANOSECONDS_PER_DAY]; omega
-  · rw [if_neg he]
-    have hv : ¬ ((wdDiff w ((d.val / 86400000000000) % 7)).val = 0) := by
-      intro h0; apply he; apply (eqb_spec _ _ hdiff.1 hz).mpr; left; rw [h0]; decide
-    rw [hdiff.2] at hv
-    have hk : 1 ≤ ((d.val / 86400000000000) % 7 - w) % 7 ∧ ((d.val / 86400000000000) % 7 - w) % 7 ≤ 6 := by omega
-    have ha := sub_spec d _ hd hdiff.1
-    refine ⟨_, ((d.val / 86400000000000) % 7 - w) % 7, rfl, ha.1, hk.1, by omega, ?_, ?_⟩
-    · rw [ha.2, hdiff.2, clampD_mid] <;> omega
-    · rw [weekday_of_duration _ ha.1, ha.2, hdiff.2, clampD_mid (by omega) (by omega)]; omega
-
-/-- the TAI weekday of an epoch of any uniform scale advances with its own elapsed time: adding
-    whole days k to the duration adds k to the weekday (mod 7) — this is why `next`/`previous`, which
-    add days in the epoch's own scale, land on the requested TAI weekday in every uniform scale -/
-theorem weekday_shift_uniform (d : Dur) (a : TS) (k : Int) (hd : d.Canon) (ha : a.isUniform = true)
-    (hs : Safe d.val) (r : Dur) (hr : r.Canon) (hrs : Safe r.val) (hv : r.val = d.val + k * 86400000000000) :
-    ∃ w1 w2, (Ep.mk d a).weekdayIn .TAI = some w1 ∧ (Ep.mk r a).weekdayIn .TAI = some w2 ∧ w2 = (w1 + k) % 7 := by
-  have hnd : a.nonDyn = true := by cases a <;> simp_all [TS.isUniform, TS.nonDyn]
-  have h1 := weekday_in_uniform d a .TAI hd hnd rfl hs
-  have h2 := weekday_in_uniform r a .TAI hr hnd rfl hrs
-  refine ⟨_, _, h1, h2, ?_⟩
-  rw [instV_uniform a r.val ha, instV_uniform a d.val ha, hv]
-  have : off TS.TAI = 0 := rfl
-  rw [this]
-  omega
-
-/-- `next` for an epoch of ANY uniform scale: 1 to 7 whole days later in its own scale, on the
-    requested (TAI) weekday -/
-theorem next_spec_uniform (d : Dur) (a : TS) (w : Int) (hd : d.Canon) (ha : a.isUniform = true) (hw : 0 ≤ w ∧ w ≤ 6)
-    (hs : Safe d.val) (hs7 : Safe (d.val + 7 * 86400000000000)) :
-    ∃ r k, (Ep.mk d a).next w = some ⟨r, a⟩ ∧ r.Canon ∧ 1 ≤ k ∧ k ≤ 7 ∧ r.val = d.val + k * 86400000000000 ∧
-      (Ep.mk r a).weekdayIn .TAI = some w := by
-  have hnd : a.nonDyn = true := by cases a <;> simp_all [TS.isUniform, TS.nonDyn]
-  have hcur := weekday_in_uniform d a .TAI hd hnd rfl hs
-  have hoff : off TS.TAI = 0 := rfl
-  rw [instV_uniform a d.val ha, hoff] at hcur
-  unfold Ep.next; rw [hcur]; simp only
-  generalize hcv : ((d.val + off a - 0) / 86400000000000) % 7 = cur at *
-  have hc : 0 ≤ cur ∧ cur ≤ 6 := by omega
-  have hdiff := diff_weekdays cur w hc hw
-  have hz : Dur.ZERO.Canon := by unfold Dur.Canon Dur.ZERO; simp only [NPC_eq]; decide
-  have h7 := unitMulI64_spec Gen.NANOSECONDS_PER_DAY 7 (by unfold unitFactors; simp) (by decide)
-  have hsafe := hs
-  unfold Safe DMIN DMAX at hs; simp only [NPCs_eq] at hs
-  have key : ∀ (x : Dur) (k : Int), x.Canon → x.val = k * 86400000000000 → 1 ≤ k → k ≤ 7 → (cur + k) % 7 = w →
-      ∃ r k, some (Ep.mk (Dur.add d x) a) = some ⟨r, a⟩ ∧ r.Canon ∧ 1 ≤ k ∧ k ≤ 7 ∧ r.val = d.val + k * 86400000000000 ∧
-        (Ep.mk r a).weekdayIn .TAI = some w := by
-    intro x k hx hxv hk1 hk7 hwk
-    have ha' := add_spec d x hd hx
-    have hrv : (Dur.add d x).val = d.val + k * 86400000000000 := by rw [ha'.2, hxv, clampD_mid] <;> omega
-    have hrs : Safe (Dur.add d x).val := by
-      -- 7 days is far below the 4-century margin, but Safe itself is a fixed margin: weaken via a direct bound
-      unfold Safe DMIN DMAX at hs7 ⊢; simp only [NPCs_eq] at hs7 ⊢; have := hrv; omega
-    obtain ⟨w1, w2, e1, e2, e3⟩ := weekday_shift_uniform d a k hd ha hsafe (Dur.add d x) ha'.1 hrs hrv
-    have hcur' := weekday_in_uniform d a .TAI hd hnd rfl hsafe
-    rw [instV_uniform a d.val ha, hoff, hcv] at hcur'
-    rw [hcur'] at e1
-    have : w1 = cur := by injection e1 with h; exact h.symm
-    refine ⟨_, k, rfl, ha'.1, hk1, hk7, hrv, ?_⟩
-    rw [e2, e3, this, hwk]
-  by_cases he : Dur.eqb (wdDiff cur w) Dur.ZERO = true
-  · rw [if_pos he]
-    have hv := (eqb_spec _ _ hdiff.1 hz).mp he
-    have hzv : Dur.ZERO.val = 0 := by decide
-    rw [hzv, hdiff.2] at hv
-    exact key _ 7 h7.1 (by rw [h7.2, clampD_mid (x := 7 * Gen.NANOSECONDS_PER_DAY) (by decide) (by decide), NPD_eq]) (by omega) (by omega) (by omega)
-  · rw [if_neg he]
-    have hv : ¬ ((wdDiff cur w).val = 0) := by
-      intro h0; apply he; apply (eqb_spec _ _ hdiff.1 hz).mpr; left; rw [h0]; decide
-    rw [hdiff.2] at hv
-    exact key _ ((w - cur) % 7) hdiff.1 hdiff.2 (by omega) (by omega) (by omega)
-
-/-! ### next / previous for every non-dynamical scale (the six uniform scales AND UTC) -/
-
-/-- the jump of `next`, any non-dynamical scale: `k` whole days later in the epoch's own scale, 1 ≤ k ≤ 7, where
-    `k` is the distance from the epoch's current TAI weekday (the weekday the code computes) to `w` -/
-theorem next_jump_nondyn (d : Dur) (a : TS) (w : Int) (hd : d.Canon) (ha : a.nonDyn = true) (hw : 0 ≤ w ∧ w ≤ 6)
-    (hs : Safe d.val) :
-    ∃ r k, (Ep.mk d a).next w = some ⟨r, a⟩ ∧ r.Canon ∧ 1 ≤ k ∧ k ≤ 7 ∧ r.val = d.val + k * 86400000000000 ∧
-      ((instV a d.val / 86400000000000) % 7 + k) % 7 = w := by
-  have hcur := weekday_in_uniform d a .TAI hd ha rfl hs
-  have hoff : off TS.TAI = 0 := rfl
-  rw [hoff, Int.sub_zero] at hcur
-  unfold Ep.next; rw [hcur]; simp only
-  have hc : 0 ≤ (instV a d.val / 86400000000000) % 7 ∧ (instV a d.val / 86400000000000) % 7 ≤ 6 := by omega
-  generalize (instV a d.val / 86400000000000) % 7 = cur at *
-  have hdiff := diff_weekdays cur w hc hw
-  have hz : Dur.ZERO.Canon := by unfold Dur.Canon Dur.ZERO; simp only [NPC_eq]; decide
-  have h7 := unitMulI64_spec Gen.NANOSECONDS_PER_DAY 7 (by unfold unitFactors; simp) (by decide)
-  unfold Safe DMIN DMAX at hs; simp only [NPCs_eq] at hs
-  have key : ∀ (x : Dur) (k : Int), x.Canon → x.val = k * 86400000000000 → 1 ≤ k → k ≤ 7 → (cur + k) % 7 = w →
-      ∃ r k, some (Ep.mk (Dur.add d x) a) = some ⟨r, a⟩ ∧ r.Canon ∧ 1 ≤ k ∧ k ≤ 7 ∧ r.val = d.val + k * 86400000000000 ∧
-        (cur + k) % 7 = w := by
-    intro x k hx hxv hk1 hk7 hwk
-    have ha' := add_spec d x hd hx
-    have hrv : (Dur.add d x).val = d.val + k * 86400000000000 := by rw [ha'.2, hxv, clampD_mid] <;> omega
-    exact ⟨_, k, rfl, ha'.1, hk1, hk7, hrv, hwk⟩
-  by_cases he : Dur.eqb (wdDiff cur w) Dur.ZERO = true
-  · rw [if_pos he]
-    have hv := (eqb_spec _ _ hdiff.1 hz).mp he
-    have hzv : Dur.ZERO.val = 0 := by decide
-    rw [hzv, hdiff.2] at hv
-    exact key _ 7 h7.1 (by rw [h7.2, clampD_mid (x := 7 * Gen.NANOSECONDS_PER_DAY) (by decide) (by decide), NPD_eq]) (by omega) (by omega) (by omega)
-  · rw [if_neg he]
-    have hv : ¬ ((wdDiff cur w).val = 0) := by
-      intro h0; apply he; apply (eqb_spec _ _ hdiff.1 hz).mpr; left; rw [h0]; decide
-    rw [hdiff.2] at hv
-    exact key _ ((w - cur) % 7) hdiff.1 hdiff.2 (by omega) (by omega) (by omega)
-
-/-- the jump of `previous`, any non-dynamical scale: `k` whole days earlier, 1 ≤ k ≤ 7 -/
-theorem previous_jump_nondyn (d : Dur) (a : TS) (w : Int) (hd : d.Canon) (ha : a.nonDyn = true) (hw : 0 ≤ w ∧ w ≤ 6)
-    (hs : Safe d.val) :
-    ∃ r k, (Ep.mk d a).previous w = some ⟨r, a⟩ ∧ r.Canon ∧ 1 ≤ k ∧ k ≤ 7 ∧ r.val = d.val - k * 86400000000000 ∧
-      ((instV a d.val / 86400000000000) % 7 - k) % 7 = w := by
-  have hcur := weekday_in_uniform d a .TAI hd ha rfl hs
-  have hoff : off TS.TAI = 0 := rfl
-  rw [hoff, Int.sub_zero] at hcur
-  unfold Ep.previous; rw [hcur]; simp only
-  have hc : 0 ≤ (instV a d.val / 86400000000000) % 7 ∧ (instV a d.val / 86400000000000) % 7 ≤ 6 := by omega
-  generalize (instV a d.val / 86400000000000) % 7 = cur at *
-  have hdiff := diff_weekdays w cur hw hc
-  have hz : Dur.ZERO.Canon := by unfold Dur.Canon Dur.ZERO; simp only [NPC_eq]; decide
-  have h7 := unitMulI64_spec Gen.NANOSECONDS_PER_DAY 7 (by unfold unitFactors; simp) (by decide)
-  unfold Safe DMIN DMAX at hs; simp only [NPCs_eq] at hs
-  have key : ∀ (x : Dur) (k : Int), x.Canon → x.val = k * 86400000000000 → 1 ≤ k → k ≤ 7 → (cur - k) % 7 = w →
-      ∃ r k, some (Ep.mk (Dur.sub d x) a) = some ⟨r, a⟩ ∧ r.Canon ∧ 1 ≤ k ∧ k ≤ 7 ∧ r.val = d.val - k * 86400000000000 ∧
-        (cur - k) % 7 = w := by
-    intro x k hx hxv hk1 hk7 hwk
-    have ha' := sub_spec d x hd hx
-    have hrv : (Dur.sub d x).val = d.val - k * 86400000000000 := by rw [ha'.2, hxv, clampD_mid] <;> omega
-    exact ⟨_, k, rfl, ha'.1, hk1, hk7, hrv, hwk⟩
-  by_cases he : Dur.eqb (wdDiff w cur) Dur.ZERO = true
-  · rw [if_pos he]
-    have hv := (eqb_spec _ _ hdiff.1 hz).mp he
-    have hzv : Dur.ZERO.val = 0 := by decide
-    rw [hzv, hdiff.2] at hv
-    exact key _ 7 h7.1 (by rw [h7.2, clampD_mid (x := 7 * Gen.NANOSECONDS_PER_DAY) (by decide) (by decide), NPD_eq]) (by omega) (by omega) (by omega)
-  · rw [if_neg he]
-    have hv : ¬ ((wdDiff w cur).val = 0) := by
-      intro h0; apply he; apply (eqb_spec _ _ hdiff.1 hz).mpr; left; rw [h0]; decide
-    rw [hdiff.2] at hv
-    exact key _ ((cur - w) % 7) hdiff.1 hdiff.2 (by omega) (by omega) (by omega)
-
-/-- `previous` for an epoch of ANY uniform scale (mirror of `next_spec_uniform`): 1 to 7 whole days earlier in
-    its own scale, on the requested (TAI) weekday -/
-theorem previous_spec_uniform (d : Dur) (a : TS) (w : Int) (hd : d.Canon) (ha : a.isUniform = true) (hw : 0 ≤ w ∧ w ≤ 6)
-    (hs : Safe d.val) (hs7 : Safe (d.val - 7 * 86400000000000)) :
-    ∃ r k, (Ep.mk d a).previous w = some ⟨r, a⟩ ∧ r.Canon ∧ 1 ≤ k ∧ k ≤ 7 ∧ r.val = d.val - k * 86400000000000 ∧
-      (Ep.mk r a).weekdayIn .TAI = some w := by
-  have hnd : a.nonDyn = true := by cases a <;> simp_all [TS.isUniform, TS.nonDyn]
-  obtain ⟨r, k, r1, r2, k1, k7, rv, hwk⟩ := previous_jump_nondyn d a w hd hnd hw hs
-  refine ⟨r, k, r1, r2, k1, k7, rv, ?_⟩
-  have hrs : Safe r.val := by
-    unfold Safe DMIN DMAX at hs hs7 ⊢; simp only [NPCs_eq] at hs hs7 ⊢; omega
-  rw [weekday_in_uniform r a .TAI r2 hnd rfl hrs, instV_uniform a r.val ha, rv]
-  rw [instV_uniform a d.val ha] at hwk
-  have hoff : off TS.TAI = 0 := rfl
-  rw [hoff]; congr 1; omega
-
-/-- `next` / `previous` for a UTC epoch.  The jump is `k` whole days (k·86 400 s) of the UTC count, 1 ≤ k ≤ 7,
-    chosen from the epoch's TAI weekday; the result falls on the requested TAI weekday whenever TAI−UTC is the
-    same at both ends of the jump (no leap second inserted inside it).  When a leap second IS inserted inside
-    the jump the TAI time of day moves by one second and the TAI weekday of the result can differ from the
-    request only for results within that second of TAI midnight — stated by the hypothesis, not hidden. -/
-theorem next_spec_utc (d : Dur) (w : Int) (hd : d.Canon) (hw : 0 ≤ w ∧ w ≤ 6)
-    (hs : Safe d.val) (hs7 : Safe (d.val + 7 * 86400000000000)) :
-    ∃ r k, (Ep.mk d .UTC).next w = some ⟨r, .UTC⟩ ∧ r.Canon ∧ 1 ≤ k ∧ k ≤ 7 ∧ r.val = d.val + k * 86400000000000 ∧
-      (Ldesc Hifi.C06.builtinDesc r.val = Ldesc Hifi.C06.builtinDesc d.val → (Ep.mk r .UTC).weekdayIn .TAI = some w) := by
-  obtain ⟨r, k, r1, r2, k1, k7, rv, hwk⟩ := next_jump_nondyn d .UTC w hd rfl hw hs
-  refine ⟨r, k, r1, r2, k1, k7, rv, fun hL => ?_⟩
-  have hrs : Safe r.val := by
-    unfold Safe DMIN DMAX at hs hs7 ⊢; simp only [NPCs_eq] at hs hs7 ⊢; omega
-  rw [weekday_in_uniform r .UTC .TAI r2 rfl rfl hrs]
-  have hoff : off TS.TAI = 0 := rfl
-  have hi : instV .UTC r.val = instV .UTC d.val + k * 86400000000000 := by
-    unfold instV; rw [if_pos rfl, if_pos rfl, hL, rv]; omega
-  rw [hoff, hi]; congr 1; omega
-
-theorem previous_spec_utc (d : Dur) (w : Int) (hd : d.Canon) (hw : 0 ≤ w ∧ w ≤ 6)
-    (hs : Safe d.val) (hs7 : Safe (d.val - 7 * 86400000000000)) :
-    ∃ r k, (Ep.mk d .UTC).previous w = some ⟨r, .UTC⟩ ∧ r.Canon ∧ 1 ≤ k ∧ k ≤ 7 ∧ r.val = d.val - k * 86400000000000 ∧
-      (Ldesc Hifi.C06.builtinDesc r.val = Ldesc Hifi.C06.builtinDesc d.val → (Ep.mk r .UTC).weekdayIn .TAI = some w) := by
-  obtain ⟨r, k, r1, r2, k1, k7, rv, hwk⟩ := previous_jump_nondyn d .UTC w hd rfl hw hs
-  refine ⟨r, k, r1, r2, k1, k7, rv, fun hL => ?_⟩
-  have hrs : Safe r.val := by
-    unfold Safe DMIN DMAX at hs hs7 ⊢; simp only [NPCs_eq] at hs hs7 ⊢; omega
-  rw [weekday_in_uniform r .UTC .TAI r2 rfl rfl hrs]
-  have hoff : off TS.TAI = 0 := rfl
-  have hi : instV .UTC r.val = instV .UTC d.val - k * 86400000000000 := by
-    unfold instV; rw [if_pos rfl, if_pos rfl, hL, rv]; omega
-  rw [hoff, hi]; congr 1; omega
-
-/-- the hypothesis of the two UTC theorems is met whenever no table entry lies in the week around the epoch:
-    e.g. everywhere after the last entry plus a week, and everywhere before 1972 -/
-theorem utc_no_leap_far_from_entries (u v : Int) (h : (3692217600 * 1000000000 ≤ u ∧ 3692217600 * 1000000000 ≤ v) ∨
-    (u < 2272060800 * 1000000000 ∧ v < 2272060800 * 1000000000)) :
-    Ldesc Hifi.C06.builtinDesc u = Ldesc Hifi.C06.builtinDesc v := by
-  rw [Hifi.C06.builtin_L_eq_spec, Hifi.C06.builtin_L_eq_spec]
-  congr 1
-  unfold leapAt
-  have hrev : Hifi.C06.iersTbl.reverse = (3692217600, 37) :: (Hifi.C06.iersTbl.reverse).tail := by decide +kernel
-  rcases h with h | h
-  · rw [hrev]; simp only [stepDesc]; rw [if_pos (by omega), if_pos (by omega)]
-  · have hall : ∀ (l : List (Int × Int)) (x : Int), (∀ e ∈ l, x < e.1 * 1000000000) → stepDesc l x = 0 := by
-      intro l x hl
-      induction l with
-      | nil => rfl
-      | cons e l ih =>
-        obtain ⟨t, o⟩ := e
-        simp only [stepDesc]
-        rw [if_neg (by have := hl (t, o) (List.mem_cons_self ..); simp only at this; omega)]
-        exact ih (fun e he => hl e (List.mem_cons_of_mem _ he))
-    have hmin : ∀ e ∈ Hifi.C06.iersTbl.reverse, 2272060800 ≤ e.1 := by decide +kernel
-    rw [hall _ u (fun e he => by have := hmin e he; omega), hall _ v (fun e he => by have := hmin e he; omega)]
+/-! ### next / previous: see the end of the file (own-calendar semantics since fix 2e58fb7) -/
 
 /-- UTC accessor: the weekday of a UTC epoch is the civil weekday of its UTC date … -/
 theorem weekday_utc_own_scale (d : Dur) (hd : d.Canon) :
@@ -466,5 +191,124 @@ theorem weekday_in_uniform_civil (d : Dur) (a b : TS) (hd : d.Canon) (ha : a.non
 
 /-- the GPST reference epoch, 1980-01-06, is a Sunday (6), not a Monday: decided on the model -/
 example : (Ep.mk ⟨0, 0⟩ .GPST).weekdayInCivil .GPST = some 6 ∧ (Ep.mk ⟨0, 0⟩ .GPST).weekdayIn .GPST = some 0 := by decide
+
+
+/-! ### `next` / `previous` (since fix 2e58fb7: weekday and whole days on the epoch's OWN calendar) — all nine scales -/
+
+/-- own-calendar weekday of an epoch: the weekday of its civil day count -/
+theorem weekdayOwn_spec (d : Dur) (ts : TS) (hd : d.Canon)
+    (hr : DMIN ≤ d.val + (Cal.gregorianEpochOffset ts).val ∧ d.val + (Cal.gregorianEpochOffset ts).val ≤ DMAX) :
+    (Ep.mk d ts).weekdayOwn = ((d.val + (Cal.gregorianEpochOffset ts).val) / 86400000000000) % 7 :=
+  weekday_civil_of_count d ts hd hr
+
+/-- **`next`**, EVERY time scale (ET/TDB and the GNSS scales included, before the reference as well): the result is
+    the epoch plus k whole days of its own count, 1 ≤ k ≤ 7, same scale, and its calendar date in that scale falls on
+    the requested weekday.  No hypothesis about leap seconds: the days are counted on the calendar the weekday is
+    taken from (before the fix the weekday came from the TAI date, and a UTC epoch across an insertion could land on
+    the requested weekday in neither calendar). -/
+theorem next_spec_own (d : Dur) (ts : TS) (w : Int) (hd : d.Canon) (hw : 0 ≤ w ∧ w ≤ 6)
+    (hlo : DMIN ≤ d.val) (hhi : d.val + (Cal.gregorianEpochOffset ts).val + 7 * 86400000000000 ≤ DMAX) :
+    ∃ r k, (Ep.mk d ts).next w = some ⟨r, ts⟩ ∧ r.Canon ∧ 1 ≤ k ∧ k ≤ 7 ∧
+      r.val = d.val + k * 86400000000000 ∧ (Ep.mk r ts).weekdayOwn = w := by
+  have hg := gregOff_canon_val ts
+  generalize hgv : (Cal.gregorianEpochOffset ts).val = g at hg hhi
+  have hr0 : DMIN ≤ d.val + (Cal.gregorianEpochOffset ts).val ∧ d.val + (Cal.gregorianEpochOffset ts).val ≤ DMAX := by
+    rw [hgv]; unfold DMIN DMAX at *; simp only [NPCs_eq] at *; omega
+  have hcur := weekdayOwn_spec d ts hd hr0
+  rw [hgv] at hcur
+  unfold Ep.next Ep.nextOwn
+  simp only [hcur]
+  have hc : 0 ≤ ((d.val + g) / 86400000000000) % 7 ∧ ((d.val + g) / 86400000000000) % 7 ≤ 6 := by omega
+  have hdiff := diff_weekdays (((d.val + g) / 86400000000000) % 7) w hc hw
+  have hz : Dur.ZERO.Canon := by unfold Dur.Canon Dur.ZERO; simp only [NPC_eq]; decide
+  have h7 := unitMulI64_spec Gen.NANOSECONDS_PER_DAY 7 (by unfold unitFactors; simp) (by decide)
+  have h7v : (Dur.unitMulI64 Gen.NANOSECONDS_PER_DAY 7).val = 7 * 86400000000000 := by
+    rw [h7.2, clampD_mid (x := 7 * Gen.NANOSECONDS_PER_DAY) (by decide) (by decide)]
+  unfold DMIN DMAX at *; simp only [NPCs_eq] at *
+  by_cases he : Dur.eqb (wdDiff (((d.val + g) / 86400000000000) % 7) w) Dur.ZERO = true
+  · rw [if_pos he]
+    have hv := (eqb_spec _ _ hdiff.1 hz).mp he
+    have hzv : Dur.ZERO.val = 0 := by decide
+    rw [hzv, hdiff.2] at hv
+    have hk : (w - ((d.val + g) / 86400000000000) % 7) % 7 = 0 := by omega
+    have ha := add_spec d _ hd h7.1
+    have hrv : (Dur.add d (Dur.unitMulI64 Gen.NANOSECONDS_PER_DAY 7)).val = d.val + 7 * 86400000000000 := by
+      rw [ha.2, h7v, clampD_mid (by omega) (by omega)]
+    refine ⟨_, 7, rfl, ha.1, by omega, by omega, hrv, ?_⟩
+    rw [weekdayOwn_spec _ ts ha.1 (by rw [hrv, hgv]; unfold DMIN DMAX; simp only [NPCs_eq]; omega), hrv, hgv]
+    omega
+  · rw [if_neg he]
+    have hv : ¬ ((wdDiff (((d.val + g) / 86400000000000) % 7) w).val = 0) := by
+      intro h0; apply he; apply (eqb_spec _ _ hdiff.1 hz).mpr; left; rw [h0]; decide
+    rw [hdiff.2] at hv
+    have hk : 1 ≤ (w - ((d.val + g) / 86400000000000) % 7) % 7 ∧ (w - ((d.val + g) / 86400000000000) % 7) % 7 ≤ 6 := by omega
+    have ha := add_spec d _ hd hdiff.1
+    have hrv : (Dur.add d (wdDiff (((d.val + g) / 86400000000000) % 7) w)).val
+        = d.val + ((w - ((d.val + g) / 86400000000000) % 7) % 7) * 86400000000000 := by
+      rw [ha.2, hdiff.2, clampD_mid (by omega) (by omega)]
+    refine ⟨_, (w - ((d.val + g) / 86400000000000) % 7) % 7, rfl, ha.1, hk.1, by omega, hrv, ?_⟩
+    rw [weekdayOwn_spec _ ts ha.1 (by rw [hrv, hgv]; unfold DMIN DMAX; simp only [NPCs_eq]; omega), hrv, hgv]
+    omega
+
+/-- **`previous`**, every time scale: k whole days earlier, 1 ≤ k ≤ 7, on the requested weekday of the own calendar -/
+theorem previous_spec_own (d : Dur) (ts : TS) (w : Int) (hd : d.Canon) (hw : 0 ≤ w ∧ w ≤ 6)
+    (hlo : DMIN ≤ d.val - 7 * 86400000000000) (hhi : d.val + (Cal.gregorianEpochOffset ts).val ≤ DMAX) :
+    ∃ r k, (Ep.mk d ts).previous w = some ⟨r, ts⟩ ∧ r.Canon ∧ 1 ≤ k ∧ k ≤ 7 ∧
+      r.val = d.val - k * 86400000000000 ∧ (Ep.mk r ts).weekdayOwn = w := by
+  have hg := gregOff_canon_val ts
+  generalize hgv : (Cal.gregorianEpochOffset ts).val = g at hg hhi
+  have hr0 : DMIN ≤ d.val + (Cal.gregorianEpochOffset ts).val ∧ d.val + (Cal.gregorianEpochOffset ts).val ≤ DMAX := by
+    rw [hgv]; unfold DMIN DMAX at *; simp only [NPCs_eq] at *; omega
+  have hcur := weekdayOwn_spec d ts hd hr0
+  rw [hgv] at hcur
+  unfold Ep.previous Ep.previousOwn
+  simp only [hcur]
+  have hc : 0 ≤ ((d.val + g) / 86400000000000) % 7 ∧ ((d.val + g) / 86400000000000) % 7 ≤ 6 := by omega
+  have hdiff := diff_weekdays w (((d.val + g) / 86400000000000) % 7) hw hc
+  have hz : Dur.ZERO.Canon := by unfold Dur.Canon Dur.ZERO; simp only [NPC_eq]; decide
+  have h7 := unitMulI64_spec Gen.NANOSECONDS_PER_DAY 7 (by unfold unitFactors; simp) (by decide)
+  have h7v : (Dur.unitMulI64 Gen.NANOSECONDS_PER_DAY 7).val = 7 * 86400000000000 := by
+    rw [h7.2, clampD_mid (x := 7 * Gen.NANOSECONDS_PER_DAY) (by decide) (by decide)]
+  unfold DMIN DMAX at *; simp only [NPCs_eq] at *
+  by_cases he : Dur.eqb (wdDiff w (((d.val + g) / 86400000000000) % 7)) Dur.ZERO = true
+  · rw [if_pos he]
+    have hv := (eqb_spec _ _ hdiff.1 hz).mp he
+    have hzv : Dur.ZERO.val = 0 := by decide
+    rw [hzv, hdiff.2] at hv
+    have hk : (((d.val + g) / 86400000000000) % 7 - w) % 7 = 0 := by omega
+    have ha := sub_spec d _ hd h7.1
+    have hrv : (Dur.sub d (Dur.unitMulI64 Gen.NANOSECONDS_PER_DAY 7)).val = d.val - 7 * 86400000000000 := by
+      rw [ha.2, h7v, clampD_mid (by omega) (by omega)]
+    refine ⟨_, 7, rfl, ha.1, by omega, by omega, hrv, ?_⟩
+    rw [weekdayOwn_spec _ ts ha.1 (by rw [hrv, hgv]; unfold DMIN DMAX; simp only [NPCs_eq]; omega), hrv, hgv]
+    omega
+  · rw [if_neg he]
+    have hv : ¬ ((wdDiff w (((d.val + g) / 86400000000000) % 7)).val = 0) := by
+      intro h0; apply he; apply (eqb_spec _ _ hdiff.1 hz).mpr; left; rw [h0]; decide
+    rw [hdiff.2] at hv
+    have hk : 1 ≤ (((d.val + g) / 86400000000000) % 7 - w) % 7 ∧ (((d.val + g) / 86400000000000) % 7 - w) % 7 ≤ 6 := by omega
+    have ha := sub_spec d _ hd hdiff.1
+    have hrv : (Dur.sub d (wdDiff w (((d.val + g) / 86400000000000) % 7))).val
+        = d.val - ((((d.val + g) / 86400000000000) % 7 - w) % 7) * 86400000000000 := by
+      rw [ha.2, hdiff.2, clampD_mid (by omega) (by omega)]
+    refine ⟨_, (((d.val + g) / 86400000000000) % 7 - w) % 7, rfl, ha.1, hk.1, by omega, hrv, ?_⟩
+    rw [weekdayOwn_spec _ ts ha.1 (by rw [hrv, hgv]; unfold DMIN DMAX; simp only [NPCs_eq]; omega), hrv, hgv]
+    omega
+
+/-- for a TAI epoch the own calendar is the TAI calendar: `next` lands on the requested `weekday()` -/
+theorem next_spec (d : Dur) (w : Int) (hd : d.Canon) (hw : 0 ≤ w ∧ w ≤ 6) (hlo : DMIN ≤ d.val)
+    (hhi : d.val + 7 * 86400000000000 ≤ DMAX) :
+    ∃ r k, (Ep.mk d .TAI).next w = some ⟨r, .TAI⟩ ∧ r.Canon ∧ 1 ≤ k ∧ k ≤ 7 ∧
+      r.val = d.val + k * 86400000000000 ∧ (r.val / 86400000000000) % 7 = w := by
+  have h0 : (Cal.gregorianEpochOffset .TAI).val = 0 := by decide
+  obtain ⟨r, k, h1, h2, h3, h4, h5, h6⟩ := next_spec_own d .TAI w hd hw hlo (by rw [h0]; omega)
+  refine ⟨r, k, h1, h2, h3, h4, h5, ?_⟩
+  have hr := canon_range r h2
+  rw [weekdayOwn_spec r .TAI h2 (by rw [h0]; unfold DMIN DMAX at *; simp only [NPCs_eq] at *; omega), h0] at h6
+  simpa using h6
+
+-- non-vacuity: the 1972-01-01T23:59:56 UTC witness of the repaired defect now lands on a Wednesday of the UTC calendar
+example : (Ep.mk ⟨0, 2272147195999999997⟩ .UTC).previous 2 = some ⟨⟨0, 2271887995999999997⟩, .UTC⟩ ∧
+    (Ep.mk ⟨0, 2271887995999999997⟩ .UTC).weekdayOwn = 2 := by decide
 
 end Hifi.C16
